@@ -72,6 +72,8 @@ func call(o op) int {
 		return lib.Quit(o.arg)
 	case 12:
 		return lib.WorkerPool(o.arg)
+	case 13:
+		return lib.Zoo(o.arg)
 	// defective
 	case 20:
 		return lib.RacyCounter()
@@ -115,6 +117,8 @@ func want(fn, arg int) int {
 		return arg * (arg + 1) / 2
 	case 12:
 		return sumSq(arg)
+	case 13:
+		return zooWant[arg]
 	case 26:
 		return 1
 	case 20:
@@ -132,6 +136,10 @@ func want(fn, arg int) int {
 	}
 	return 0
 }
+
+// zooWant holds lib.Zoo(k) as computed by the UNINSTRUMENTED library (frozen values; the
+// instrumented copy must reproduce them).
+var zooWant = map[int]int{1: 211, 2: 214, 3: 221, 4: 225, 5: 250, 6: 220, 7: 217}
 
 func policy(r *rnd, nt int, seed uint64) simrt.Policy {
 	if nt == 1 {
@@ -175,7 +183,7 @@ func main() {
 			for j := 0; j < k; j++ {
 				var o op
 				if mode == "ok" {
-					o.fn = r.n(13)
+					o.fn = r.n(14)
 					o.arg = 1 + r.n(7)
 				} else {
 					o.fn = *name
